@@ -53,6 +53,7 @@ def s_C07(tier, rng):
 
 def s_C08(tier, rng):
     return [("corpus", gen.corpus()),
+            ("constructors", gen.constructors(rng)),
             ("arena_small", gen.arena_small(tier, rng)),
             ("arena_variants", gen.arena_variants(tier, rng, Q(tier, 4000, 80000))),
             ("memfail_then_more", gen.memfail_then_more(tier, rng, Q(tier, 600, 8000))),
@@ -125,7 +126,7 @@ ALLMON = ["C01", "C02", "C04", "C06", "C07", "C08", "C10", "C12", "C13", "C14", 
 PROPS = {
     "C01": {"streams": s_C01, "monitors": ["C01"], "conc_monitors": ["C03", "C05", "C16"]},
     "C02": {"streams": s_C02, "monitors": ["C02"], "props_extra": ["C02H"], "conc_monitors": ["C03"]},
-    "C04": {"streams": s_C04, "monitors": ["C04"], "conc_monitors": ["C05", "PANIC"]},
+    "C04": {"streams": s_C04, "monitors": ["C04"], "conc_monitors": ["C05", "C04", "PANIC"], "props_extra": ["C04D"]},
     "C06": {"streams": s_C06, "monitors": ["C06", "C01", "C02"], "props_extra": ["C06B"]},
     "C07": {"streams": s_C07, "monitors": ["C07"], "conc_monitors": ["C07"]},
     "C08": {"streams": s_C08, "monitors": ["C08"]},
